@@ -125,29 +125,41 @@ Fixpoint gsubStrInfos (s rp : bytes) (mds : list (list Z)) : res (list replaceIn
       end
   end.
 
-Definition gsubTableInfos (s : bytes) (t : list (lval * option bytes)) (mds : list (list Z))
-  : list replaceInfo :=
-  flat_map (fun m =>
-    let idx := if len m >? 2 then 2 else 0 in
-    let key := if isPosCapture m idx then VNum (capture m idx)
-               else VStr (slice s (capture m idx) (capture m (idx + 1))) in
-    match tab_get t key with
-    | Some v => [(capture m 0, capture m 1, v)]
-    | None => []
-    end) mds.
-
-Fixpoint gsubFuncInfos (s : bytes) (rets : list (option bytes)) (mds : list (list Z)) (ncall : nat)
-  : list replaceInfo * list (list lval) :=
+Fixpoint gsubTableInfos (s : bytes) (t : list (lval * rval)) (mds : list (list Z))
+  : res (list replaceInfo) :=
   match mds with
-  | [] => ([], [])
+  | [] => Ok []
+  | m :: r =>
+      let idx := if len m >? 2 then 2 else 0 in
+      let key := if isPosCapture m idx then VNum (capture m idx)
+                 else VStr (slice s (capture m idx) (capture m (idx + 1))) in
+      match tab_get t key with
+      | RBad => Err                                 (* gsubReplValue: invalid replacement value *)
+      | v =>
+          match gsubTableInfos s t r with
+          | Ok l => Ok (match v with RSome b => (capture m 0, capture m 1, b) :: l | _ => l end)
+          | x => x
+          end
+      end
+  end.
+
+Fixpoint gsubFuncInfos (s : bytes) (rets : list rval) (mds : list (list Z)) (ncall : nat)
+  : res (list replaceInfo * list (list lval)) :=
+  match mds with
+  | [] => Ok ([], [])
   | m :: r =>
       let args := if len m >? 2 then caps_list s m
                   else [VStr (slice s (capture m 0) (capture m 1))] in
-      let '(infos, calls) := gsubFuncInfos s rets r (ncall + 1) in
-      (match nth ncall rets None with
-       | Some v => (capture m 0, capture m 1, v) :: infos
-       | None => infos
-       end, args :: calls)
+      match nth ncall rets RNone with
+      | RBad => Err
+      | v =>
+          match gsubFuncInfos s rets r (ncall + 1) with
+          | Ok (infos, calls) =>
+              Ok (match v with RSome b => (capture m 0, capture m 1, b) :: infos | _ => infos end,
+                  args :: calls)
+          | x => x
+          end
+      end
   end.
 
 (* strGsub; olimit = optional 4th argument.  A number given as replacement is passed here
@@ -165,9 +177,15 @@ Definition strGsub (s p : bytes) (r : repl) (olimit : option Z) : res gsub_out :
             | Ok infos => Ok (strGsubDoReplace s infos, len mds, [])
             | Err => Err | Panic => Panic | Fuel => Fuel | Unsup => Unsup
             end
-        | RTab t => Ok (strGsubDoReplace s (gsubTableInfos s t mds), len mds, [])
+        | RTab t =>
+            match gsubTableInfos s t mds with
+            | Ok infos => Ok (strGsubDoReplace s infos, len mds, [])
+            | Err => Err | Panic => Panic | Fuel => Fuel | Unsup => Unsup
+            end
         | RFn rets =>
-            let '(infos, calls) := gsubFuncInfos s rets mds 0 in
-            Ok (strGsubDoReplace s infos, len mds, calls)
+            match gsubFuncInfos s rets mds 0 with
+            | Ok (infos, calls) => Ok (strGsubDoReplace s infos, len mds, calls)
+            | Err => Err | Panic => Panic | Fuel => Fuel | Unsup => Unsup
+            end
         end
     end).
